@@ -3,7 +3,7 @@ package main
 
 func init() {
 	register("C04", true, true, checkC04)
-	register("C06", false, true, checkC06)
+	register("C06", true, true, checkC06)
 }
 
 func checkC04(w *World, tier string) *Report {
@@ -16,6 +16,8 @@ func checkC04(w *World, tier string) *Report {
 	emitSiteRule(w, r, "R4.1b")
 	emitSiteRule(w, r, "R4.2")
 	emitReturnRule(w, r, "R4.4", func(fn string) bool { return fn == "(*EVM).Call" })
+	addErrorNotDroppedRule(w, r, "R4.5")
+	r.Explanation += " R4.5 (SSA def-use) every error-typed result of a call inside the five frame entry points flows, through phis and the result cell, into the error operand of a return: no failure detected inside the frame is lost (e.g. in a variable that shadows the frame's error), which would make the frame report success and keep its effects."
 	r.need("R4.1", 7)
 	r.need("R4.1b", 5)
 	r.need("R4.2", 4)
@@ -57,6 +59,14 @@ func checkC06(w *World, tier string) *Report {
 	r.need("R6.1", 4)
 	r.need("R4.4", 2)
 	addR63(w, r)
+	// the caller side of the hand-over: the call/create instructions credit the caller with exactly what the frame
+	// returned (clones of the reference; shared with C04 R4.3)
+	{
+		callers := map[string]bool{"opCall": true, "opCallCode": true, "opDelegateCall": true, "opStaticCall": true, "opCreate": true, "opCreate2": true}
+		w.e1().cloneRule(r, "R4.3", pkVM, func(n string, pr *PairResult) bool { return callers[n] })
+		r.need("R4.3", 6)
+		r.Explanation += " R4.3 (shared with C04) the call/create instructions, which credit the caller with what the frame returned, are SSA clones of the reference."
+	}
 	r.Assumptions = append(r.Assumptions, "the Aspect runtime reports a leftover gas not larger than the gas it was given", "package-level Err* variables are non-nil")
 	return r
 }
